@@ -131,6 +131,24 @@ def call_builtin(ex, name, args, kwargs, node):
     if name in ('collections.defaultdict', 'defaultdict', 'collections.OrderedDict', 'OrderedDict'):
         return V(TTuple([]), [])
     if name in ('typing.cast', 'cast'): return args[1]
+    if name == 'pickle.loads':
+        # may fail with an arbitrary exception; otherwise the uninterpreted inverse of dumps
+        if not ex.spec and ex.choose(2) == 1: ex.raise_exc('Exception')
+        return call_spec(ex, 'unpk', [ex.val(args[0])], {}, node)
+    if name == 'pickle.dumps':
+        return call_spec(ex, 'pk', [ex.val(args[0])], {}, node)
+    if name == 'functools.partial':
+        fn = args[0]
+        if not isinstance(fn, E.FuncRef): raise Unsupported('functools.partial of a non-function')
+        tyname = ex.w.partial_types.get(fn.node.name)
+        if tyname is None: raise Unsupported('functools.partial(%s) has no declared record type' % fn.node.name)
+        ty = ex.w.ty(tyname)
+        vals = {}
+        for f, fty in ty.fields:
+            if f in kwargs: vals[f] = ex.co(kwargs[f], fty)
+            elif f == 'kw': vals[f] = ex.co(kwargs.get('**', V(TTuple([]), [])), fty)
+            else: raise Unsupported('partial: field %s not bound' % f)
+        return V(ty, vals)
     raise Unsupported('builtin %s' % name)
 
 def _isinstance(ex, obj, cls):
@@ -292,6 +310,14 @@ def call_method_builtin(ex, bm, args, kwargs, node):
     args = [a if isinstance(a, (E.IterV, E.PyObj)) else ex.val(a) for a in args]
     if name == '_replace' and isinstance(ty, TRec):
         vals = dict(recv.t)
+        star = kwargs.pop('**', None)
+        if star is not None:
+            star = ex.val(star)
+            if isinstance(star.ty, TMap) and star.ty.k is TStr:
+                for f, fty in ty.fields:
+                    kt = z3.StringVal(f)
+                    vals[f] = vite(z3.Select(star.t[0], kt), ex.co(unpack(z3.Select(star.t[1], kt), star.ty.v), fty), vals[f])
+            elif not (isinstance(star.ty, TTuple) and not star.t): raise Unsupported('_replace(**%r)' % star.ty)
         for k, v in kwargs.items(): vals[k] = coerce(ex.val(v), ty.fty(k))
         return V(ty, vals)
     if ty is TStr: return _str_method(ex, recv, name, args, kwargs)
@@ -349,6 +375,9 @@ def _seq_method(ex, bm, recv, name, args, kwargs):
         else: raise Unsupported('tuple.%s' % name)
     ety = recv.ty.elem; ln, arr = recv.t
     if name == 'append':
+        ety2 = join_ty(ety, args[0].ty)
+        if ety2 != ety:
+            recv = coerce(recv, TSeq(ety2)); ety = ety2; ln, arr = recv.t
         x = coerce(args[0], ety)
         ex.assign(bm.recv_node, V(recv.ty, (ln + 1, z3.Store(arr, ln, pack(x))))); return NONE
     if name == 'extend':
@@ -451,7 +480,16 @@ def call_spec(ex, name, args, kwargs, node):
     if name in w.ufuncs:
         atys, rty = w.ufuncs[name]
         f = z3.Function(name, *[sort_of(w.ty(a)) for a in atys], sort_of(w.ty(rty)))
-        return unpack(f(*[pack(coerce(ex.val(a), w.ty(t))) for a, t in zip(args, atys)]), w.ty(rty))
+        avals = [ex.co(a, w.ty(t)) for a, t in zip(args, atys)]
+        res = unpack(f(*[pack(a) for a in avals]), w.ty(rty))
+        facts = w.ufunc_facts.get(name)
+        if facts and not getattr(ex, '_in_ufunc_fact', False):
+            ex._in_ufunc_fact = True
+            try:
+                env = dict(ex.st.env); env.update({'a%d' % i: a for i, a in enumerate(avals)})
+                for fct in facts: ex.assume(ex.eval_spec(fct, env=env))
+            finally: ex._in_ufunc_fact = False
+        return res
     _prim = {'int': TInt, 'bool': TBool, 'str': TStr}
     a = [E.TypeObj(_prim[x.name]) if isinstance(x, E.BuiltinRef) and x.name in _prim else x if isinstance(x, (E.PyObj,)) else ex.val(x) for x in args]
     if name == 'implies': return vbool(z3.Implies(truth(a[0]), truth(a[1])))
